@@ -8,5 +8,5 @@ echo "== demo on pristine tree"; (cd $WT && PYTHONPATH=$WT/src TQDM_DISABLE=1 ti
 (cd $WT && git apply $PATCH) || { echo "patch does not apply"; exit 2; }
 echo "== test suite with patch"; (cd $WT && PYTHONPATH=$WT/src timeout 900 /venv/bin/python -m pytest -q -p no:cacheprovider tests 2>&1 | tail -4)
 echo "== demo with patch"; (cd $WT && PYTHONPATH=$WT/src TQDM_DISABLE=1 timeout 900 /venv/bin/python $DEMO >/tmp/demo_patch_$$.log 2>&1; echo "exit=$?"; tail -3 /tmp/demo_patch_$$.log)
-for p in $PROPS; do echo "== check $p"; VERIF_REPO=$WT /verif/check $p 2>&1 | grep -v "^KNOWN" | tail -4; done
+for p in $PROPS; do echo "== check $p"; VERIF_REPO=$WT ${VERIF_DIR:-/verif}/check $p 2>&1 | grep -v "^KNOWN" | tail -4; done
 rm -f /tmp/demo_clean_$$.log /tmp/demo_patch_$$.log
